@@ -168,6 +168,41 @@ def run (s : KB) : List Op → List Out × KB
 /-- the keystrokes waiting to be read, oldest first -/
 def waiting (s : KB) : List Key := s.buf.drop s.start
 
+/-! ### Keyboard.get_fullchar: the reader behind INPUT / LINE INPUT / the line editor (DBCS pairing) -/
+
+/-- `c in codepage.lead` / `c in codepage.trail` for a keystroke `c`: the sets hold single bytes, so a
+    two-byte keystroke (e-ASCII key, a double-byte character typed as one key) or `b''` is never a member -/
+def inSet (set : Nat → Bool) (c : Bytes) : Bool :=
+  match c with
+  | [x] => set x
+  | _ => false
+
+/-- `Keyboard.get_fullchar()` with no function-key macro involved and no input stream: read one keystroke;
+    if it is a lead byte and the NEXT waiting keystroke (peeked, not consumed) is a trail byte, read that too -/
+def getFullchar (lead trail : Nat → Bool) (s : KB) : Bytes × KB :=
+  let r := getc s
+  if inSet lead r.1 && inSet trail (peekc r.2) then
+    let r2 := getc r.2
+    (r.1 ++ r2.1, r2.2)
+  else r
+
+/-- a reading path: `byte` = `read_byte` (INKEY$, INPUT$), `full` = `get_fullchar` (INPUT, LINE INPUT, editor) -/
+inductive Rd where
+  | byte
+  | full
+deriving Repr, DecidableEq
+
+def readStep (lead trail : Nat → Bool) (s : KB) : Rd → Bytes × KB
+  | .byte => getc s
+  | .full => getFullchar lead trail s
+
+def readAll (lead trail : Nat → Bool) (s : KB) : List Rd → List Bytes × KB
+  | [] => ([], s)
+  | r :: rest =>
+    let x := readStep lead trail s r
+    let t := readAll lead trail x.2 rest
+    (x.1 :: t.1, t.2)
+
 /-! ### the code before the repair (for the counterexample theorems only) -/
 namespace Old
 
